@@ -5,8 +5,10 @@
    named / unnamed nested structs, single and multi-level pointers, slices, maps,
    time.Time, chan / array / func / interface; exported and unexported fields; no
    embedded fields or tags.  Values are trees (no aliasing between destination pointers);
-   converters are pure functions returning a value of their declared Dst type
-   (`opt_ok`, Go's type system) or an error.  `has_type` = the Go value has that type. *)
+   converters are pure functions that return an error, or an `any` that is the nil interface
+   (possible only for a converter to an interface type: ConvertField[string, any], [int, error])
+   or a dynamic value that has its dynamic type (`opt_ok`, Go's type system); the converter's
+   Src type is a non-interface type.  `has_type` = the Go value has that type. *)
 From Ekit Require Import Common CopierModel CopierProof CopierProof2 CopierProof3.
 
 (* NewReflectCopier[Src, Dst](opts...) returns a copier or an error for ALL type pairs
